@@ -12,7 +12,8 @@
    statistic window. *)
 From Coq Require Import Floats.
 From SG Require Import Base.Prelude Base.GoInt Base.GoFloat Model.Breaker
-  Proofs.BreakerLAProofs Proofs.BreakerProofs Proofs.BreakerRunProofs.
+  Proofs.BreakerLAProofs Proofs.BreakerProofs Proofs.BreakerRunProofs
+  Model.BreakerConc Model.BreakerLeaf Proofs.BreakerLeafProofs.
 #[local] Open Scope Z_scope.
 
 (* Closed -> Open happens at a completion exactly when the reference window holds at least the
@@ -186,6 +187,53 @@ Example C03_nonvacuous_states :
      map state (brs s) = [HalfOpen; HalfOpen] /\ alookup 6 (live s) = Some 1700000000443).
 Proof. vm_compute. repeat split; reflexivity. Qed.
 
+(* ---- Round 3: the model's decision logic IS the Go source ----
+   Model/BreakerLeaf.v transcribes TryPass, the state handling of OnRequestComplete, the from*To*
+   helpers, the exit hook, retryTimeoutArrived and the deadline store as functions from the
+   values the code reads to its result and the list of actions it performs; translator/leaf
+   regenerates exactly these functions from the Go source on every run and
+   translator/leaf/C03_leaf_check.v proves them equal for all inputs.  The theorems below connect
+   them to the model of the theorems above: try_pass, decide (hence on_complete) and rollback
+   are those action lists executed by a single caller (every load of the state word returns the
+   breaker's state, a CAS succeeds iff the word holds the expected value, the probe counter
+   loaded after addCurProbeNum is the old value + 1). *)
+Theorem C03_try_pass_is_source : forall c b now,
+  try_pass c b now =
+  (let r := try_pass_leaf (probe_num c) (state b) (next_retry b) now true in
+   let s := seq_run c now b (snd r) in (q_b s, fst r, q_ev s, q_hook s)).
+Proof. exact try_pass_is_leaf. Qed.
+
+(* the deadline store is uint64 arithmetic in the code and plain addition in the model: equal
+   below the clock bound of the theorems above *)
+Theorem C03_deadline_no_wrap : forall now retry,
+  0 <= now < tmax -> 0 <= retry < two32 -> retry_value now retry = now + retry.
+Proof. exact retry_value_tmax. Qed.
+
+Theorem C03_decide_is_source : forall c b now bad sl2 h2 B T,
+  retry_value now (retry_ms c) = now + retry_ms c ->
+  decide c b now bad sl2 h2 B T =
+  (let s := seq_run c now (set_slots b sl2 h2) (decide_leaf c (state b) (state b) (cur_probe b + 1) bad B T) in
+   (q_b s, q_ev s)).
+Proof. exact decide_is_leaf. Qed.
+
+Theorem C03_rollback_is_source : forall c b now,
+  rollback b =
+  (let s := fold_left (prim c now) (rollback_leaf true (bst_eqb (state b) HalfOpen)) {| q_b := b; q_ev := []; q_hook := false |} in
+   (q_b s, q_ev s)).
+Proof. exact rollback_is_leaf. Qed.
+
+(* the configuration built from a rule uses getRuleStatSlidingWindowBucketCount *)
+Theorem C03_bucket_count_is_source : forall s th minamt retry probe maxrt interval raw,
+  gn (rule_cfg s th minamt retry probe maxrt interval raw) = bucket_count interval raw
+  /\ gbl (rule_cfg s th minamt retry probe maxrt interval raw) = interval / bucket_count interval raw.
+Proof. exact rule_cfg_bucket_count. Qed.
+
+Example C03_source_nonvacuous :
+  (0 <= 1700000000123 < tmax /\ 0 <= retry_ms ex_cfg1 < two32) /\
+  retry_value 1700000000123 (retry_ms ex_cfg1) = 1700000000123 + retry_ms ex_cfg1 /\
+  decide_leaf ex_cfg1 Closed Closed 1 true 2 2 = [AClosedToOpen (open_snapshot ex_cfg1 2 2)].
+Proof. vm_compute. repeat split; congruence. Qed.
+
 Print Assumptions C03_opens_iff.
 Print Assumptions C03_window_refines.
 Print Assumptions C03_open_rejects.
@@ -196,3 +244,8 @@ Print Assumptions C03_failed_probe_reopens_probes_close.
 Print Assumptions C03_probe_counter.
 Print Assumptions C03_rollback.
 Print Assumptions C03_listener_path.
+Print Assumptions C03_try_pass_is_source.
+Print Assumptions C03_deadline_no_wrap.
+Print Assumptions C03_decide_is_source.
+Print Assumptions C03_rollback_is_source.
+Print Assumptions C03_bucket_count_is_source.
